@@ -106,6 +106,32 @@ def decodeRegions (ks : Keyspace) : List (Bytes × Bytes) → Except Err (List (
     | .error .outOfBound => decodeRegions ks rest
     | .error x => .error x
 
+/-- `len(ks) > 0 && len(ks[0]) == 0` -/
+def headEmpty : List Bytes → Bool
+  | a :: _ => a.isEmpty
+  | [] => false
+
+/-- `DecodeBucketKeys` (region buckets from PD): the loop over `keys` with index `i`, `n = len(keys)`, `acc = ks` -/
+def decodeBucketKeysAux (ks : Keyspace) (n : Nat) : Nat → List Bytes → List Bytes → Except Err (List Bytes)
+  | _, [], acc => .ok acc
+  | i, key :: rest, acc =>
+    match (if key.isEmpty then (.ok [] : Except Err Bytes) else memDecode key) with
+    | .error e => .error e
+    | .ok k =>
+      if i == 0 && Bytes.cmp k ks.pfx == .lt then
+        decodeBucketKeysAux ks n (i + 1) rest (acc ++ [[]])
+      else if i + 1 == n && (k.isEmpty || Bytes.cmp k ks.endKey != .lt) then
+        decodeBucketKeysAux ks n (i + 1) rest (acc ++ [[]])
+      else if Bytes.isPrefix ks.pfx k then
+        let raw := k.drop ks.pfx.length
+        if raw.isEmpty && headEmpty acc then
+          decodeBucketKeysAux ks n (i + 1) rest acc
+        else decodeBucketKeysAux ks n (i + 1) rest (acc ++ [raw])
+      else decodeBucketKeysAux ks n (i + 1) rest acc
+
+def decodeBucketKeys (ks : Keyspace) (keys : List Bytes) : Except Err (List Bytes) :=
+  decodeBucketKeysAux ks keys.length 0 keys []
+
 /-! ## the property's own vocabulary (logical ranges; empty end = +∞) -/
 
 /-- `k ∈ [s, e)` with `e = []` meaning unbounded -/
@@ -116,6 +142,10 @@ def inRangeRev (k s e : Bytes) : Bool := Bytes.le e k && (s.isEmpty || Bytes.lt 
 
 /-- plain half-open interval of encoded keys (no empty-end convention) -/
 def inInterval (x lo hi : Bytes) : Bool := Bytes.le lo x && Bytes.lt x hi
+
+/-- wire form of a region bound as PD / TiKV report it: empty stays empty (unbounded), anything else is the
+    memcomparable encoding -/
+def encRegionBound (x : Bytes) : Bytes := if x.isEmpty then [] else Codec.encodeBytes x
 
 /-- membership of an encoded key in a region `[rs, re)` given in encoded space (`re = []` = +∞) -/
 def inRegion (x rs re : Bytes) : Bool := Bytes.le rs x && (re.isEmpty || Bytes.lt x re)
